@@ -844,3 +844,82 @@ def run_convfailok(prog, ctx=None):
                        "" if not isbad else "`return %d` at line %s is reached while %s, the answer of a conversion, may be negative: a source the conversion refused is answered with success and nothing is stored" % (
                            cval(e["e"]), e.get("l"), vname))
     return res
+
+
+TYPEID_STEM_ALIAS = {"lattr": "lineattr"}
+
+
+def run_typeiddest(prog, ctx=None):
+    """TYPEIDDEST: `type = mpt_<kind>_typeid(); .. src->convert(src, type, dest)` asks the source for an object of that kind
+    and lets it write one through dest: dest points to a `struct mpt_<kind>` (for `mpt_<kind>_pointer_typeid()` to a pointer
+    to one).  The type id that reaches the call is taken from the nearest assignment that dominates it.  Asking for a colour
+    with the whole line as destination (the "copy from sibling" branch of the line setter) refuses every line and lets a
+    colour source overwrite the head of the line."""
+    res = Result("TYPEIDDEST")
+    for f in sorted(prog.functions.values(), key=lambda f: (f.file, f.line, f.qn)):
+        if f.nocfg or f.file.startswith("examples/"):
+            continue
+        assigns = {}      # local id -> [(block id, element index, callee name)]
+        for b, i, e in f.elements():
+            for n in walk_own(e):
+                if n.get("k") == "bin" and n.get("op") == "=":
+                    l = strip(n["a"], lvalue_to_rvalue=False)
+                    r = strip(n["b"], all_casts=True)
+                    if l.get("k") == "ref" and "id" in l["d"]:
+                        nm = (callee_name(r) or "") if r.get("k") == "call" else ""
+                        assigns.setdefault(l["d"]["id"], []).append((b.id, i, nm if nm.endswith("_typeid") else None))
+        if not any(nm for v in assigns.values() for _, _, nm in v):
+            continue
+        dom = f.dominators()
+        order = {}
+        for b, i, e in f.elements():
+            order[id(e)] = (b.id, i)
+        for call, ke, de, what in convert_calls(prog, f):
+            k = strip(ke, all_casts=True)
+            if not (k.get("k") == "ref" and k["d"].get("id") in assigns):
+                continue
+            pos = None
+            for b, i, e in f.elements():
+                if e is call or any(m is call for m in walk_own(e)):
+                    pos = (b.id, i)
+                    break
+            if pos is None:
+                continue
+            # nearest dominating assignment: same block before the call, else the closest dominator block that assigns
+            best = None
+            for (ab, ai, nm) in assigns[k["d"]["id"]]:
+                if ab == pos[0] and ai < pos[1]:
+                    if best is None or best[0] != pos[0] or ai > best[1]:
+                        best = (ab, ai, nm)
+            if best is None:
+                cands = [(ab, ai, nm) for (ab, ai, nm) in assigns[k["d"]["id"]] if ab in dom[pos[0]] and ab != pos[0]]
+                # the dominator closest to the call is the one every other candidate dominates
+                for c in cands:
+                    if all(o[0] in dom[c[0]] for o in cands):
+                        if best is None or (c[0] == best[0] and c[1] > best[1]) or c[0] != best[0]:
+                            best = c if best is None or c[0] != best[0] or c[1] > best[1] else best
+            if best is None or not best[2]:
+                continue
+            nm = best[2]
+            stem = nm[len("mpt_"):-len("_typeid")] if nm.startswith("mpt_") else nm[:-len("_typeid")]
+            want_ptr = stem.endswith("_pointer")
+            if want_ptr:
+                stem = stem[:-len("_pointer")]
+            stem = TYPEID_STEM_ALIAS.get(stem, stem)
+            d = strip(de, all_casts=True)
+            if d.get("k") == "un" and d.get("op") == "&":
+                DT = f.T(d["e"].get("t"))
+            else:
+                pt = f.pointee(d.get("t"))
+                DT = f.T(pt) if pt is not None else {}
+            if want_ptr:
+                DT = f.T(DT.get("to")) if DT.get("k") == "ptr" else {}
+            if DT.get("k") != "record":
+                continue
+            name = DT.get("name", "").split("::")[-1].replace("struct ", "")
+            name = name[len("mpt_"):] if name.startswith("mpt_") else name
+            ok = name == stem
+            res.ob("%s:convert(%s(), %s)" % (f.qn, nm, norm(show(de, f))), ok, f, call.get("l") or f.line,
+                   "" if ok else "the source is asked for the type of %s() and writes through `%s`, which points to a %s: an object of the destination's own kind is refused, one of the other kind overwrites its head" % (
+                       nm, norm(show(de, f)), DT.get("s", name)))
+    return res
